@@ -296,6 +296,16 @@ func RunFC(fc, dir string, timeout time.Duration, args ...string) Result {
 	return Run(Opts{Dir: dir, Timeout: timeout, VLimKB: ToolVLimKB, Env: append(os.Environ(), "GOTRACEBACK=single")}, fc, args...)
 }
 
+// RunFCEnv is RunFC with extra environment variables.
+func RunFCEnv(fc, dir string, timeout time.Duration, extraEnv []string, args ...string) Result {
+	if timeout == 0 {
+		timeout = 60 * time.Second
+	}
+	env := append(os.Environ(), "GOTRACEBACK=single")
+	env = append(env, extraEnv...)
+	return Run(Opts{Dir: dir, Timeout: timeout, VLimKB: ToolVLimKB, Env: env}, fc, args...)
+}
+
 // GoBuild builds packages (relative to the work module dir) with the private
 // cache; out is a file (one package) or a directory (several).
 func GoBuild(workdir, gocache, out string, pkgs ...string) Result {
